@@ -25,10 +25,16 @@ type Op struct {
 	NoRecord bool `json:"no_record,omitempty"`
 	// ValueAll: attach the executing context's whole balance (SELFBALANCE) instead of Value.
 	ValueAll bool `json:"value_all,omitempty"`
+	// Alt (call): pass one byte of calldata so that the callee runs its Alt body; the callee may then be any frame,
+	// also an earlier one or the caller itself.
+	Alt bool `json:"alt_entry,omitempty"`
 }
 
 type Frame struct {
 	Ops []Op `json:"ops"`
+	// Alt, if present, is the body the frame runs when it is called with non-empty calldata (a second entry point:
+	// lets a contract be re-entered, from any depth, with a different behaviour). Alt bodies contain no call ops.
+	Alt []Op `json:"alt,omitempty"`
 }
 
 // Program: Frames[0] is the contract the transaction calls.
@@ -50,6 +56,9 @@ func ResultSlot(i, j int) common.Hash {
 	return common.BigToHash(big.NewInt(int64(0x100000 + i*0x1000 + j)))
 }
 
+// AltBase is the op index offset of Alt-body ops in ResultSlot.
+const AltBase = 100
+
 func hexBytes(s string) []byte {
 	return common.FromHex(s)
 }
@@ -70,7 +79,15 @@ func (p Program) Compile() [][]byte {
 	out := make([][]byte, len(p.Frames))
 	for i, f := range p.Frames {
 		a := New()
-		for j, op := range f.Ops {
+		if len(f.Alt) > 0 {
+			a.Op(vm.CALLDATASIZE)
+			a.Jumpi("alt")
+		}
+		body := f.Ops
+		base := 0
+	emit:
+		for jj, op := range body {
+			j := base + jj
 			switch op.Kind {
 			case "pre", "call", "send":
 				var target common.Address
@@ -79,7 +96,12 @@ func (p Program) Compile() [][]byte {
 				case "pre":
 					target, data = common.HexToAddress(op.Target), hexBytes(op.Data)
 				case "call":
-					if op.Child <= i || op.Child >= len(p.Frames) {
+					if op.Alt {
+						if base != 0 || op.Child < 0 || op.Child >= len(p.Frames) || len(p.Frames[op.Child].Alt) == 0 {
+							panic(fmt.Sprintf("frame %d op %d: alt-entry call to %d not possible", i, j, op.Child))
+						}
+						data = []byte{1}
+					} else if op.Child <= i || op.Child >= len(p.Frames) {
 						panic(fmt.Sprintf("frame %d op %d: child %d out of range (calls go to later frames only)", i, j, op.Child))
 					}
 					target = FrameAddr(op.Child)
@@ -145,6 +167,11 @@ func (p Program) Compile() [][]byte {
 			}
 		}
 		a.Op(vm.STOP)
+		if base == 0 && len(f.Alt) > 0 {
+			a.Label("alt")
+			body, base = f.Alt, AltBase
+			goto emit
+		}
 		out[i] = a.Bytes()
 	}
 	return out
